@@ -56,6 +56,8 @@ ParseWhy(e) ==
   ELSE IF HasObj /\ mods # {} /\ (~e.hasObjD \/ ~ObjVarsOK(e.objD, N)) THEN "parse-objective-lost"
   ELSE IF HasObj /\ ~SameCost(mods, Obj, e.objD) THEN "parse-cost-differs"
   ELSE IF ~HasObj /\ e.hasObjD THEN "parse-objective-invented"
+  (* what the solver makes of the parsed problem: its model count is the number of models of the text *)
+  ELSE IF "counted" \in DOMAIN e /\ e.counted /\ e.count # Cardinality(DumpModels(e.d)) THEN "parse-count-differs"
   ELSE ""
 
 (* explain.ParseCNF: dump [n, nb, clauses] *)
